@@ -53,6 +53,16 @@ func RunEval(t *testing.T, c *Case, s Sched, keepLog bool) *Obs {
 	var parts []string
 	body := func() {
 		env := newEnv(c)
+		if c.Bystander {
+			// earlier, unrelated calls on the same environment that change nothing in the store: the measured
+			// call's result is a function of its arguments, not of what the environment was used for before
+			env.Eval("6*7")
+			env.Eval("1/0")
+			if cmd, _, err := parser.ParseCommand("w", ": $((40+2))${none:-d}"); err == nil {
+				env.Expand(cmd.(*ast.Cmd).Expr.(*ast.SimpleCmd).Args[1], 0)
+			}
+			sim.Yield(gosim.PCallerMark)
+		}
 		switch c.Kind {
 		case "eval":
 			n, err := env.Eval(c.Src)
@@ -94,6 +104,9 @@ func RunEval(t *testing.T, c *Case, s Sched, keepLog bool) *Obs {
 	o.Res = gosim.RunInBubble(t, sim, body)
 	o.Parts = parts
 	o.Dump = joinParts(parts)
+	if c.Bystander {
+		o.Extra["solo"] = SoloCase(t, c)
+	}
 	return o
 }
 
@@ -114,6 +127,14 @@ func RunEval2(t *testing.T, c *Case, s Sched, keepLog bool) *Obs {
 	o.Parts = parts
 	o.Dump = joinParts(parts)
 	return o
+}
+
+// SoloCase runs an eval/expand case once on a fresh environment (first schedule) without the earlier
+// unrelated calls: the reference for "a function of its arguments alone".
+func SoloCase(t *testing.T, c *Case) string {
+	cc := *c
+	cc.Bystander = false
+	return RunEval(t, &cc, Sched{PolicyIdx: 0}, false).Dump
 }
 
 // SoloEval evaluates expr on a fresh environment built from the case and dumps value, error and store.
